@@ -15,9 +15,9 @@
     the unconditional statement, see the witnesses.
   * `C08_clear` — `clear_caches()` empties the cache, so the next outcome is the cold one.
   * `C08_witness_type`, `C08_witness_hash`, `C08_witness_string`, `C08_witness_context`,
-    `C08_witness_subclass` — the negation of the unconditional statement: concrete
+    `C08_witness_subclass`, `C08_witness_registry`, `C08_witness_recursive` — the negation of the unconditional statement: concrete
     two-step histories whose second outcome differs warm and cold (known findings
-    F13a–e; each is replayed on the real code by the check).
+    F13a–g; each is replayed on the real code by the check).
   * `C08_keys` — what the key identifies and what it keeps apart.
 -/
 import Cerberus.Model.Cache
@@ -132,6 +132,23 @@ theorem C08_witness_subclass :
     run [] [.submit .bulk (.dict [(.s "is_odd", .bool true)]) T true,      -- subclass: valid
             .submit .bulk (.dict [(.s "is_odd", .bool true)]) T false]     -- base class: invalid
       = [some true, some true] := by decide
+
+/-- a reference is cached by its *name*: the rule set `{'type': 'dict', 'schema': 'node'}` validated while the
+    registry holds a valid definition of `node`, submitted again after `node` was redefined to an invalid one
+    (known finding F13f) -/
+theorem C08_witness_registry :
+    run [] [.submit .bulk (.dict [(.s "type", .str "dict"), (.s "schema", .str "node")]) T true,     -- registry: node valid
+            .submit .bulk (.dict [(.s "type", .str "dict"), (.s "schema", .str "node")]) T false]    -- registry: node invalid
+      = [some true, some true] := by decide
+
+/-- a part of a self-referential definition is validated while the definition itself is still being
+    checked: the cycle guard answers "known", the part is cached as valid, and the definition is then
+    rejected for another field; the part submitted on its own is accepted warm (known finding F13g) -/
+theorem C08_witness_recursive :
+    run [] [.submit .bulk (.dict [(.s "type", .str "dict"), (.s "schema", .str "node")]) T true,     -- inside node, guard says known
+            .submit .subschema (.dict [(.s "v", .dict [(.s "type", .str "integerx")])]) T false,      -- node itself: rejected
+            .submit .bulk (.dict [(.s "type", .str "dict"), (.s "schema", .str "node")]) T false]    -- the part alone: invalid cold
+      = [some true, some false, some true] := by decide
 
 /-- the witnesses violate exactly the hypothesis of `C08_transparent_partial` -/
 theorem C08_witness_confused :
